@@ -9,8 +9,14 @@ sys.path.insert(0, sys.argv[1])
 import data_msg as d
 import gsm_shared as g
 import data_dump as dd
+from array import array
 mods = list(d.Modulation)
 tx, rx = d.TxMsg(), d.RxMsg()
+# the four soft-bit conversions as tables over all 256 octet values, MEASURED through the public conversion functions
+# (whatever private tables / expressions implement them)
+s8 = lambda b: b - 256 if b >= 128 else b
+all_u = array('B', range(256))
+all_s = array('b', [s8(b) for b in range(256)])
 def hdr_len(cls):
     out = []
     for v in range(0, d.Msg.CHDR_VERSION_MAX + 2):
@@ -38,10 +44,10 @@ print(json.dumps({
     "modGMSK": mods.index(d.Modulation.ModGMSK),
     "rxDefaultMod": mods.index(rx.mod_type) if rx.mod_type is not None else None,
     "rxDefaultNope": bool(rx.nope_ind),
-    "tabUsbit2sbit": list(d.Msg._tab_usbit2sbit),
-    "tabSbit2usbit": list(d.Msg._tab_sbit2usbit),
-    "tabSbit2ubit": list(d.Msg._tab_sbit2ubit),
-    "tabUbit2sbit": list(d.Msg._tab_ubit2sbit),
+    "tabUsbit2sbit": [s8(int(x)) for x in bytes(d.Msg.usbit2sbit(all_u))],
+    "tabSbit2usbit": [int(x) for x in bytes(d.Msg.sbit2usbit(all_s))],
+    "tabSbit2ubit": [int(x) for x in bytes(d.Msg.sbit2ubit(all_s))],
+    "tabUbit2sbit": [s8(int(x)) for x in bytes(d.Msg.ubit2sbit(bytearray(range(256))))],
     "dumpTagTx": list(dd.DATADump.TAG_TxMsg),
     "dumpTagRx": list(dd.DATADump.TAG_RxMsg),
     "dumpHdrLength": dd.DATADump.HDR_LENGTH,
